@@ -889,7 +889,7 @@ Proof.
   destruct (rz_fields _ _ _ _ _ _ _ Er2) as [a [Hloop [HA [HF HW]]]]. fold rd in Hloop, HA, HF, HW.
   pose proof (rz_loop_sums k m (s_r_cor s) rd (k_Aer k) p 0 (k_SxTop k) _ _ _ Hw Hg Hloop) as Hsums.
   cbv zeta in Hsums. fold plan in Hsums. cbn [a_act a_fc a_wp] in Hsums. destruct Hsums as [S1 [S2 S3]].
-  pose proof (tr_rootdepth_ge (s_z_root s) _ Hzm) as Hrd. fold rd in Hrd.
+  pose proof (tr_rootdepth_ge (s_z_root s) _ Hzm) as Hrd. change (1/100 <= rd) in Hrd.
   assert (Hd : 0 < rd * 1000) by lra.
   rewrite HA, HF, HW in Hlt. set (d := rd * 1000) in *.
   set (Wact := if Rltb (a_act a) 0 then 0 else a_act a) in *.
